@@ -166,6 +166,7 @@ structure St where
   refI : Int                -- ghost: … the index side
   seen : List Int           -- ghost: every duration meta handed out
   log : List Ev
+  bgr : Bool                -- `DBPTInfo.bgrEnabled`: false while the partition is being offloaded (PreOffload)
 deriving Repr
 
 /-! ### catalogue side -/
@@ -281,12 +282,14 @@ deriving DecidableEq, Repr
 def Outcome.good : Outcome := ⟨true, true, true⟩
 
 inductive DelRes
-  | ok | notFound | failed | closedErr
+  | ok | notFound | failed | closedErr | migrating
 deriving DecidableEq, Repr
 
-/-- `DeleteShard` (see `Model.engDelRes`) -/
-def delSRes (o : Outcome) (sid : Nat) (shards : List XShard) : DelRes :=
+/-- `DeleteShard` (see `Model.engDelRes`): refused with `PtIsAlreadyMigrating` while the
+partition is being offloaded (`!bgrEnabled`), before the shard is looked up. -/
+def delSRes (o : Outcome) (sid : Nat) (shards : List XShard) (bgr : Bool) : DelRes :=
   if !o.delOk then .failed
+  else if !bgr then .migrating
   else match shards.find? (fun s => s.sid == sid) with
     | some s => if s.idx then .ok else .closedErr
     | none => .notFound
@@ -302,7 +305,7 @@ def usersOf (iid : Nat) (shards : List XShard) : List (Nat × Int) :=
 /-- one iteration of the shard loop of `HandleLocalStorage`. -/
 def procS (o : Outcome) (q : SQ) (σ : St) : St :=
   let cs1 := if o.markOk then markSG q.gid σ.cs else σ.cs
-  let r := delSRes o q.sid σ.shards
+  let r := delSRes o q.sid σ.shards σ.bgr
   let gone := r = .ok ∨ r = .closedErr
   { σ with cs := if o.pruneOk then pruneS q.sid cs1 else cs1,
            shards := if gone then σ.shards.filter (fun s => s.sid != q.sid) else σ.shards,
@@ -333,6 +336,8 @@ inductive Op
   | collectI                  -- Engine.ExpiredIndexes
   | procI (o : Outcome)
   | cache                     -- Engine.ExpiredCacheIndexes + ClearIndexCache: nothing leaves
+  | offload                   -- PreOffload: the partition is about to move to another store
+  | rollback                  -- RollbackPreOffload
 deriving Repr
 
 /-- `CreateShard` → `NewShard` → `NewMergeSetIndex`: the shard takes the builder of its index id,
@@ -410,11 +415,13 @@ def step (σ : St) : Op → St
     match σ.phase with
     | .indexesDone => { σ with phase := .idle }
     | _ => σ
+  | .offload => { σ with bgr := false }
+  | .rollback => { σ with bgr := true }
 
 def steps (σ : St) (ops : List Op) : St := ops.foldl step σ
 
 def St.init (clock d : Int) (cs : List CSh) (ci : List CIx) : St :=
-  ⟨clock, d, cs, ci, [], [], [], [], [], [], .idle, false, d, d, [d], []⟩
+  ⟨clock, d, cs, ci, [], [], [], [], [], [], .idle, false, d, d, [d], [], true⟩
 
 /-! ### one whole run of `handle()` -/
 
